@@ -472,7 +472,17 @@ def run_sched(cfg: Cfg, c: Ctx) -> Any:
         except BaseException as e:
             outcome = ("raised", e)
         finally:
-            E.watch(None)
+            try:
+                if flavour == "a":
+                    # an AsyncDAG runs in the caller's event loop, which keeps running after the call returned or
+                    # raised: tasks created by ensure_future that were neither started nor cancelled start now
+                    world.start_pending_tasks()
+                else:
+                    # asyncio.run() cancels what is still pending when the coroutine is done
+                    for t in list(world.pending_tasks):
+                        t.cancel()
+            finally:
+                E.watch(None)
             twz_cfg.TAWAZI_PROFILE_ALL_NODES = saved_profiling
             twz_cfg.RUN_DEBUG_NODES = saved_run_debug
 
